@@ -342,6 +342,17 @@ def rule_tabstops(run, prog):
                 me.__dict__["__pos"] = 0
                 me.__dict__["__line"] = 1
                 env = {"self": me, "char": "\t", "size": 1, "use_spaces": use_spaces, "result": ""}
+                # locals that hold a sample of the position state (e.g. `lineno, column = self.line_pos()`): the value
+                # they have when nothing moved since the sample (staleness is R-9.6's business)
+                for n_ in walk_fn(pop.node):
+                    if isinstance(n_, ast.Assign) and isinstance(n_.value, ast.Call) and text(n_.value.func) == "self.line_pos" \
+                            and isinstance(n_.targets[0], ast.Tuple) and len(n_.targets[0].elts) == 2:
+                        a_, b_ = n_.targets[0].elts
+                        if isinstance(a_, ast.Name) and isinstance(b_, ast.Name):
+                            env.setdefault(a_.id, 1)
+                            env.setdefault(b_.id, col)
+                    if isinstance(n_, ast.Assign) and isinstance(n_.targets[0], ast.Name) and text(n_.value) in ("self.__line_pos",):
+                        env.setdefault(n_.targets[0].id, col)
                 ev = Evaluator({})
                 ev.block(stmts, env)
                 n_eval += 1
